@@ -382,7 +382,13 @@ func (c *wsConn) handleChanOut(epoch uint64, ch reflect.Value, req interface{}) 
 //	Note that not doing this should be fine for now as long as we are using
 //	contexts correctly (cancelling when async functions are no longer is use)
 func (c *wsConn) handleCtxAsync(actx context.Context, id interface{}) {
-	<-actx.Done()
+	select {
+	case <-actx.Done():
+	case <-c.exiting:
+		// the connection loop has ended: there is nobody left to tell, and actx may
+		// never be cancelled (context.Background() for a method without a context)
+		return
+	}
 	vhook("ctxw.fire", c, "id", id)
 
 	rp, err := json.Marshal([]param{{v: reflect.ValueOf(id)}})
